@@ -36,6 +36,22 @@ type pointInfo struct {
 	opts    []transID // ptSched: identity of every option
 	asleep  []bool    // ptSched: option was asleep at this point
 	sleepAt []transID // sleep set in effect at this point (before the choice)
+	forced  bool      // local-first rule applied: no alternatives to explore
+}
+
+// localOp reports whether the pending operation has an empty footprint.
+//
+//go:norace
+func localOp(p *pending) bool {
+	switch p.kind {
+	case opStart, opResume, opSleep:
+		return true
+	case opYield:
+		return p.obj == 0
+	case opLock:
+		return p.mu != nil && p.mu.nover
+	}
+	return false
 }
 
 //go:norace
